@@ -121,6 +121,63 @@ def cold_runs(run, cases):
                 break
     return failing
 
+def rebinding_runs(run, n):
+    """the caller changes the namespace bindings of ONE context between queries (Context::add_ns /
+    remove_ns): every query must answer what it answers with a fresh context that carries the bindings in
+    effect at that moment (implementation only: the control words `#bind` / `#unbind` of the harness)"""
+    rng = run.rng
+    g = X.Gen(rng, {'prefix': 0.5})
+    cases, plans = [], []
+    for k in range(n):
+        d = X.render_doc(X.gen_doc(rng, {'ns': True, 'dflt': rng.random() < 0.5, 'pi': False}))
+        binds = [('p', 'urn:p'), ('q', 'urn:q')] + ([(None, 'urn:d')] if rng.random() < 0.5 else [])
+        probes = [X.render(g.nodeset(rng.choice([1, 2]))) for _ in range(2)] + ['//p:*', '//q:*', '//*', 'count(//%s)' % rng.choice(X.NAMES), '//p:%s' % rng.choice(X.NAMES)]
+        rng.shuffle(probes)
+        probes = probes[:4]
+        env = dict(binds)
+        seq, expect = [], []
+        for p_ in probes:
+            seq.append(p_); expect.append(dict(env))
+        for _ in range(rng.choice([1, 2, 3])):
+            r = rng.random()
+            if r < 0.45:
+                pre = rng.choice(['p', 'q', None])
+                seq.append('#unbind %s' % (pre or '~')); expect.append(None)
+                env.pop(pre, None)
+            else:
+                pre, uri = rng.choice(['p', 'q', None, 'r']), rng.choice(['urn:p', 'urn:q', 'urn:d', 'urn:other'])
+                seq.append('#bind %s %s' % (pre or '~', uri)); expect.append(None)
+                env[pre] = uri
+            for p_ in probes:
+                seq.append(p_); expect.append(dict(env))
+        cases.append({'doc': d, 'exprs': seq, 'merged': True, 'binds': binds})
+        plans.append(expect)
+    shared = X.run_impl(cases)
+    singles, index = [], []
+    for k, (c, plan) in enumerate(zip(cases, plans)):
+        for j, (e, env) in enumerate(zip(c['exprs'], plan)):
+            if env is not None:
+                singles.append({'doc': c['doc'], 'exprs': [e], 'merged': True, 'binds': list(env.items())}); index.append((k, j))
+    fresh = X.run_impl(singles)
+    fr = dict(zip(index, fresh))
+    failing = []
+    for k, (c, o) in enumerate(zip(cases, shared)):
+        run.count('rebinding-sequences')
+        run.nontrivial.add((c['doc'], tuple(c['exprs'])))
+        if o.get('hang') or not o.get('R'):
+            continue
+        for j, e in enumerate(c['exprs']):
+            f = fr.get((k, j))
+            if f is None or not f.get('R') or j >= len(o['R']):
+                continue
+            run.evaluations += 1
+            if o['R'][j][0] != f['R'][0][0]:
+                failing.append({'property': 'C19', 'class': 'rebinding-dependence',
+                    'what': 'query %d (%s) answers %s on the context whose bindings were changed by the earlier control words, and %s with a fresh context carrying the same bindings' % (j, e, o['R'][j][0], f['R'][0][0]),
+                    'doc': c['doc'], 'exprs': c['exprs'], 'binds': [[p_, u] for p_, u in c['binds']]})
+                break
+    return failing
+
 def check(run):
     t0 = time.time()
     run.trusted = ['Coq 8.16.1 kernel + VM', 'Model/XPathEval.v threading the Context (tied by the xpath correspondence on shared-context sequences)',
@@ -131,7 +188,7 @@ def check(run):
         return run.finish(level='proof', rule='(binaries missing)')
     n = 400 if run.tier == 'quick' else 5000
     extra = lazy_state_cases(run.rng, run.tier == 'quick') + default_binding_sequences(run.rng, 40 if run.tier == 'quick' else 400)
-    cold_failing = cold_runs(run, extra)
+    cold_failing = cold_runs(run, extra) + rebinding_runs(run, 60 if run.tier == 'quick' else 600)
     items = sequences(run.rng, n) + X.corpus_items('C19')
     res, okm = X.evaluate(items)
     if not okm:
